@@ -50,8 +50,17 @@ func runOwnTableShared(p *core.Program, r *core.Report, rule string) {
 					r.OK(rule, construct, pos, "passes on the table pointer it received")
 					continue
 				}
-				cell, ok := a.(*ssa.Alloc)
-				if !ok {
+				// the table variable: a local (or spilled parameter) cell, or
+				// a field of a struct the function works on
+				var cell ssa.Value
+				cellKey := ""
+				switch x := a.(type) {
+				case *ssa.Alloc:
+					cell = x
+				case *ssa.FieldAddr:
+					cell, cellKey = x, exprKey(x)
+				}
+				if cell == nil {
 					r.Bad(rule, construct, pos, "cannot identify the ownership table handed to the redirection code")
 					continue
 				}
@@ -60,7 +69,7 @@ func runOwnTableShared(p *core.Program, r *core.Report, rule string) {
 				closes := false
 				core.Instrs(fn, func(x ssa.Instruction) {
 					if ia, ok := x.(*ssa.IndexAddr); ok {
-						if addr, ok := core.IsLoad(ia.X); ok && addr == ssa.Value(cell) {
+						if addr, ok := core.IsLoad(ia.X); ok && (addr == cell || (cellKey != "" && exprKey(addr) == cellKey)) {
 							walked = true
 						}
 					}
